@@ -13,7 +13,8 @@ EXPLANATION = (
     "OpenAPI document) is classified by its resolved API: merging (entry/or_insert, get_or_insert*), or "
     "overwriting/collecting; the latter must be a named row of the triage table (unique by construction, idempotent, "
     "or a recorded known finding). A new or re-classified site is a violation. (R3) component names are injective over "
-    "(module, node): shared with C09.R2. Correctness of values and attachment to the right declaration need a reference "
+    "(module, node): shared with C09.R2. (R4) the evaluator honours the resolver's binding (shared with C08.R1-R3): a use must not "
+    "evaluate to a same-named binding of a caller. Correctness of values and attachment to the right declaration need a reference "
     "semantics and are not decided.")
 TECHNIQUE = "static analysis: field read/write census on MIR + insertion-site census classified by resolved callee with a frozen triage table"
 
@@ -210,25 +211,14 @@ def r2_lossy_ins(c, facts):
     c.extra['triage_rows_not_observed'] = [list(k) for k in stale]
 
 
-def r3_component_names(c, facts):
-    import c09
-    R = c.rule('C02.R3', 'component names are injective over (module, node, instantiation) - shared with C09.R2')
-    # run the C09 naming rule under this property's id
-    saved = c.rules.get('C09.R2')
-    c09.r2_scoped_id(c, facts)
-    sub = c.rules.pop('C09.R2')
-    if saved:
-        c.rules['C09.R2'] = saved
-    c.rules[R]['obligations'] += sub['obligations']
-    c.rules[R]['discharged'] += sub['discharged']
-    c.rules[R]['instances'] += sub['instances']
-    for v in c.violations:
-        if v['rule'] == 'C09.R2':
-            v['rule'] = R
-            v['key'] = v['key'].replace('C09.R2:', R + ':')
-
-
 def run(c, facts):
+    import c08
+    import c09
     c.run(r1_field_flow, facts)
     c.run(r2_lossy_ins, facts)
-    c.run(r3_component_names, facts)
+    R3 = c.rule('C02.R3', 'NAMING: component names are injective over (module, node, instantiation) - shared with C09.R2')
+    c.shared(R3, c09.r2_scoped_id, 'C09.R2', facts)
+    R4 = c.rule('C02.R4', 'SCOPE-DISC: a use evaluates to the value of its own binder (eager arguments, scope pairing, innermost lookup) - shared with C08')
+    c.shared(R4, c08.r1_innermost, 'C08.R1', facts)
+    c.shared(R4, c08.r2_pairing, 'C08.R2', facts)
+    c.shared(R4, c08.r3_eager, 'C08.R3', facts)
